@@ -46,3 +46,103 @@ func cfgsNum() []sweepCfg {
 func cfgsNumSilent() []sweepCfg {
 	return []sweepCfg{{Num: "float64"}, {Num: "number"}, {Num: "float64", Silent: true}, {Num: "number", Silent: true}}
 }
+
+// substCurrent returns a copy of e with every @ that refers to the item of the
+// enclosing filter (depth 0) replaced by $; @ inside nested filters is rebound
+// and left alone.
+func substCurrent(e *Expr) *Expr {
+	if e == nil {
+		return nil
+	}
+	c := *e
+	if c.K == KCurrent {
+		c.K = KRoot
+	}
+	if c.K != KFilter { // a filter's condition rebinds @
+		c.A = substCurrent(e.A)
+	}
+	c.B = substCurrent(e.B)
+	if e.Subs != nil {
+		c.Subs = make([]Sub, len(e.Subs))
+		for i, s := range e.Subs {
+			c.Subs[i] = Sub{From: substCurrent(s.From), To: substCurrent(s.To)}
+		}
+	}
+	if e.Steps != nil {
+		c.Steps = make([]*Expr, len(e.Steps))
+		for i, s := range e.Steps {
+			c.Steps[i] = substCurrent(s)
+		}
+	}
+	return &c
+}
+
+// condBase: conditions over @ covering every predicate kind, soft failures,
+// nested filters followed by further uses of @, and (flagged) hard errors.
+type cond struct {
+	e    *Expr
+	hard bool // may raise a non-suppressible error
+}
+
+func condBase() []cond {
+	at := func(steps ...*Expr) *Expr { return eCur(steps...) }
+	idx := func(i int64) *Expr { return sIndex(sub1(eInt(i))) }
+	cs := []cond{
+		{e: eCmp("==", at(), eInt(1))},
+		{e: eCmp(">", at(), eInt(0))},
+		{e: eCmp("==", at(), eStr("a"))},
+		{e: eCmp("==", at(), eNull())},
+		{e: eCmp("==", at(sKey("a")), eInt(1))},
+		{e: eCmp("==", at(sKey("a")), at(sKey("b")))},
+		{e: eExists(at(sKey("a")))},
+		{e: eExists(at(sKey("b")))},
+		{e: eCmp("==", at(sAnyArray()), eInt(1))},
+		{e: eCmp("==", at(idx(0)), eInt(1))},
+		{e: eCmp("==", at(sAnyKey()), eTrue())},
+		{e: eStartsWith(at(), eStr("a"))},
+		{e: eLikeRegex(at(), "^a", "")},
+		{e: eCmp("==", eArith("+", at(sKey("a")), eInt(1)), eInt(2))},
+		{e: eCmp("==", at(sMethod("size")), eInt(2))},
+		{e: eCmp("==", at(sMethod("type")), eStr("array"))},
+		{e: eCmp("==", at(sKey("a"), sKey("b")), eInt(1))},
+		{e: eCmp("==", eNeg(at()), eInt(-1))},
+		{e: eCmp("!=", at(sKey("a")), eInt(1))},
+		{e: eCmp("!=", at(sAnyArray()), eNull())},
+		{e: eCmp("==", at(sKey("a"), sMethod("double")), eInt(1))},
+		// nested filters: @ is rebound inside and must denote the outer item again afterwards
+		{e: eExists(at(sKey("a"), sFilter(eCmp("==", eCur(), eInt(1)))))},
+		{e: eExists(at(sAnyArray(), sFilter(eCmp("==", eCur(), eInt(1)))))},
+		{e: eExists(at(sFilter(eCmp("==", eCur(sKey("a")), eInt(1))), sFilter(eCmp("==", eCur(sKey("b")), eInt(1)))))},
+		{e: eCmp("==", at(sKey("a"), sFilter(eCmp(">", eCur(), eInt(0)))), at(sKey("a")))},
+		{e: eExists(at(sAnyArray(), sFilter(eCmp(">", eCur(), eStr("x")))))},
+		{e: eExists(at(sAnyKey(), sFilter(eExists(eCur(sKey("a"))))))},
+		// hard errors
+		{e: eCmp("==", at(), eVar("missing")), hard: true},
+		{e: eExists(at(sKey("a"), sFilter(eCmp("==", eCur(), eVar("missing"))))), hard: true},
+		{e: eIsUnknown(eExists(at(sKey("a"), sFilter(eCmp("==", eCur(), eVar("missing")))))), hard: true},
+		{e: eIsUnknown(eExists(at(sAnyKey(), sFilter(eCmp(">", eCur(), eVar("missing")))))), hard: true},
+	}
+	return cs
+}
+
+// condPool: base, negations, is-unknown, and all ordered pairs under && and ||
+// of the first pairN base conditions plus every nested-filter / hard-error one.
+func condPool(pairN int) []cond {
+	base := condBase()
+	out := append([]cond{}, base...)
+	for _, c := range base {
+		out = append(out, cond{e: eNot(c.e), hard: c.hard}, cond{e: eIsUnknown(c.e), hard: c.hard})
+	}
+	var pairSet []cond
+	for i, c := range base {
+		if i < pairN || i >= 21 {
+			pairSet = append(pairSet, c)
+		}
+	}
+	for _, a := range pairSet {
+		for _, b := range pairSet {
+			out = append(out, cond{e: eAnd(a.e, b.e), hard: a.hard || b.hard}, cond{e: eOr(a.e, b.e), hard: a.hard || b.hard})
+		}
+	}
+	return out
+}
